@@ -62,8 +62,11 @@ func (e *Engine) callModular(s *State, c *Contract, args []Val) Val {
 	}
 	// 2. snapshots for old_x, then havoc what the callee may modify
 	olds := map[string]Val{}
+	need := neededOlds(fn, c.D.Posts)
 	for i, p := range fn.Params {
-		olds[p.Name()] = e.snapshot(s, args[i])
+		if need[p.Name()] {
+			olds[p.Name()] = e.snapshot(s, args[i])
+		}
 	}
 	for _, m := range c.Modifies {
 		e.havocArg(s, args[paramIndex(fn, m)])
@@ -72,7 +75,17 @@ func (e *Engine) callModular(s *State, c *Contract, args []Val) Val {
 	rs := fn.Signature.Results()
 	var results []Val
 	for i := 0; i < rs.Len(); i++ {
-		results = append(results, e.symbolic(s, "r_"+fn.Name(), rs.At(i).Type()))
+		if hasArg(c.D, "fresh") {
+			results = append(results, e.symbolicFresh(s, "r_"+fn.Name(), rs.At(i).Type(), 0))
+		} else {
+			results = append(results, e.symbolic(s, "r_"+fn.Name(), rs.At(i).Type()))
+		}
+	}
+	if c.D.Kind == "assume" {
+		if e.stubsUsed == nil {
+			e.stubsUsed = map[string]bool{}
+		}
+		e.stubsUsed[short+" (contract assumed, not proved: "+strings.Join(c.D.Posts, ",")+")"] = true
 	}
 	for _, pn := range c.D.Posts {
 		post := fn.Pkg.Func(pn)
@@ -117,6 +130,12 @@ func (e *Engine) havocArg(s *State, v Val) {
 		}
 	case SliceV:
 		// only the window [off, off+len) may change
+		if x.Len.C != nil && x.Len.C.Int64() <= 32 { // short window of known length: element-wise, no quantifier
+			for i := int64(0); i < x.Len.C.Int64(); i++ {
+				e.storeElem(s, x.Ref, iadd(x.Off, intT(i)), x.Elem, e.declare(s, "hv", elemSort(x.Elem)))
+			}
+			return
+		}
 		so := elemSort(x.Elem)
 		nm := "M_" + sortTag(so)
 		m := e.heapArr(s, nm, refArrSort(arrSort(so)))
@@ -125,7 +144,7 @@ func (e *Engine) havocArg(s *State, v Val) {
 		j := "j!" + e.fresh("h")
 		jt := Term{S: j, Sort: ISort()}
 		in := and(ile(x.Off, jt), ilt(jt, iadd(x.Off, x.Len)))
-		e.assume(s, Term{S: fmt.Sprintf("(forall ((%s %s)) (or %s (= (select %s %s) (select %s %s))))", j, ISort(), in.S, na.S, j, old.S, j), Sort: "Bool"})
+		e.axiom(s, na, Term{S: fmt.Sprintf("(forall ((%s %s)) (or %s (= (select %s %s) (select %s %s))))", j, ISort(), in.S, na.S, j, old.S, j), Sort: "Bool"})
 		e.hset(s, nm, e.name(s, sto(m, x.Ref, na)), HWrite{Ref: x.Ref, Val: na, Whole: true})
 	default:
 		panic(fmt.Sprintf("modifies of a %T argument", v))
@@ -176,4 +195,140 @@ func (e *Engine) frameCheck(fs *State, c *Contract, args []Val) {
 			e.oblig(fs, "frame["+nm+"]", ok)
 		}
 	}
+}
+
+// unknownCall models a call whose implementation is not known (interface method on a value of unknown dynamic
+// type, or an external function under the default rule). A parameterless method with one scalar result is treated
+// as a pure getter: an uninterpreted function of the receiver's identity. Anything else is an effect: it is
+// appended to the ghost trace with frozen copies of its slice arguments, and its results are unconstrained.
+// Assumption (listed in every evidence file): such a callee does not write to objects the verified code reads later.
+func (e *Engine) unknownCall(s *State, name string, sig *types.Signature, recv Val, args []Val) Val {
+	rs := sig.Results()
+	if iv, ok := recv.(IfaceV); ok && sig.Params().Len() == 0 && rs.Len() == 1 {
+		if so, ok := sortOf(rs.At(0).Type()); ok {
+			if _, isPtr := rs.At(0).Type().Underlying().(*types.Pointer); !isPtr {
+				uf := "ufm_" + sanitize(name)
+				s.defs = append(s.defs, fmt.Sprintf("(declare-fun %s (Ref) %s)", uf, so))
+				t := e.name(s, app(uf, so, e.ifaceRef(iv)))
+				if so == "Str" {
+					return StrV{T: t}
+				}
+				return t
+			}
+		}
+	}
+	if e.stubsUsed == nil {
+		e.stubsUsed = map[string]bool{}
+	}
+	e.stubsUsed[name+" (unknown implementation: effect recorded in the ghost trace, results unconstrained)"] = true
+	ev := TraceEv{Name: name}
+	if recv != nil {
+		ev.Args = append(ev.Args, recv)
+	}
+	for _, a := range args {
+		ev.Args = append(ev.Args, e.snapshot(s, a))
+	}
+	var results []Val
+	for i := 0; i < rs.Len(); i++ {
+		results = append(results, e.symbolic(s, "r_"+sanitize(name), rs.At(i).Type()))
+	}
+	ev.Results = results
+	if s.spec == 0 {
+		s.trace = append(append([]TraceEv(nil), s.trace...), ev)
+	}
+	switch len(results) {
+	case 0:
+		return nil
+	case 1:
+		return results[0]
+	}
+	return TupleV(results)
+}
+
+func sanitize(n string) string {
+	return strings.NewReplacer("(", "", ")", "", "*", "", ".", "_", "/", "_", "-", "_", " ", "").Replace(shortName(n))
+}
+
+// traceIntrinsic evaluates the verifspec.Trace* helpers against the ghost trace of the current path.
+func (e *Engine) traceIntrinsic(s *State, name string, args []Val) (Val, bool) {
+	idx := func(v Val) int {
+		t := s.res(v.(Term))
+		if t.C == nil {
+			panic("trace index must be a constant")
+		}
+		return int(t.C.Int64())
+	}
+	switch name {
+	case "vsTraceLen":
+		return intT(int64(len(s.trace))), true
+	case "vsTraceIs":
+		i := idx(args[0])
+		nm := args[1].(StrV)
+		if nm.Const == nil {
+			panic("TraceIs needs a constant name")
+		}
+		return boolT(i >= 0 && i < len(s.trace) && strings.HasSuffix(s.trace[i].Name, *nm.Const)), true
+	case "vsTraceBytes", "vsTraceInt", "vsTraceArgIs":
+		i, k := idx(args[0]), idx(args[1])
+		if i < 0 || i >= len(s.trace) || k < 0 || k >= len(s.trace[i].Args) {
+			// no such event on this path: the clause must have guarded this with TraceLen/TraceIs
+			if name == "vsTraceBytes" {
+				return SliceV{refT(0), intT(0), intT(0), intT(0), types.Typ[types.Uint8]}, true
+			}
+			return intT(0), true
+		}
+		return s.trace[i].Args[k], true
+	case "vsTraceRetInt", "vsTraceRetErr":
+		i, k := idx(args[0]), idx(args[1])
+		if i < 0 || i >= len(s.trace) || k < 0 || k >= len(s.trace[i].Results) {
+			if name == "vsTraceRetErr" {
+				return IfaceV{IsNil: boolT(true)}, true
+			}
+			return intT(0), true
+		}
+		return s.trace[i].Results[k], true
+	}
+	return nil, false
+}
+
+// symbolicFresh builds an unconstrained value of type t all of whose references are freshly allocated objects
+// (used for the results of `assume ... fresh` contracts such as a buffer taken from a pool).
+func (e *Engine) symbolicFresh(s *State, name string, t types.Type, depth int) Val {
+	switch u := t.Underlying().(type) {
+	case *types.Pointer:
+		if depth > 3 {
+			return PtrV{Nil: true}
+		}
+		r := e.newRef(s)
+		p := e.ptrFromRef(r, u.Elem())
+		e.store(s, p, e.symbolicFresh(s, name, u.Elem(), depth+1))
+		return p
+	case *types.Slice:
+		v := e.symbolic(s, name, t).(SliceV)
+		v.Ref = e.newRef(s)
+		v.Off = intT(0)
+		return v
+	case *types.Struct:
+		sv := StructV{T: u}
+		for i := 0; i < u.NumFields(); i++ {
+			sv.F = append(sv.F, e.symbolicFresh(s, name+"."+u.Field(i).Name(), u.Field(i).Type(), depth+1))
+		}
+		return sv
+	}
+	return e.symbolic(s, name, t)
+}
+
+// neededOlds lists the parameters that some postcondition mentions as old_<param>.
+func neededOlds(fn *ssa.Function, posts []string) map[string]bool {
+	need := map[string]bool{}
+	for _, pn := range posts {
+		if post := fn.Pkg.Func(pn); post != nil {
+			for _, pp := range post.Params {
+				if strings.HasPrefix(pp.Name(), "old_") {
+					need[pp.Name()[4:]] = true
+				}
+			}
+		}
+	}
+	return need
 }
